@@ -30,9 +30,41 @@ def run(ctx):
         ctx.add(o)
     for name in (T + "add_element_inner", "pocket_types::<Hll8 as AddAssign>::add_assign"):
         max_update(ctx, s, ctx.fn(name))
+    merge_covers_all(ctx, s, ctx.fn("pocket_types::<Hll8 as AddAssign>::add_assign"))
     hex_tables(ctx, s)
     import_loop_bound(ctx, s)
     offset_guard(ctx, s)
+
+
+def merge_covers_all(ctx, s, fn):
+    """the merge visits every one of the 256 registers: its loop runs over 0..=255 / 0..256, or over the whole register
+    arrays (zip of iter_mut and iter, no skip/take/step)"""
+    an = ctx.E.an(fn)
+    nexts = [(b, i) for b, i in an.calls() if (i["base"] or "").endswith("Iterator::next")]
+    if not nexts:
+        s.add("S-COVER", fn, "merge-visits-every-register", "add_assign", fn.sp, UNDECIDED, "no loop found in the merge: not decided")
+        return
+    for b, info in nexts:
+        o = ctx.E.iter_origin(fn, info["pre"][0]) if info["pre"] and info["pre"][0] is not None else None
+        verdict, why = UNDECIDED, "the loop's iterator was not recognised as a range or a walk over the register arrays"
+        if o and o != "same" and o[0] in ("incl", "excl"):
+            lo = o[1][1] if o[1][0] == "const" else None
+            hi = o[2][1] if o[2][0] == "const" else None
+            if lo is not None and hi is not None:
+                full = lo == 0 and ((o[0] == "incl" and hi == 255) or (o[0] == "excl" and hi == 256))
+                verdict = PROVED if full else VIOLATION
+                why = "the loop runs over all 256 register indexes" if full else \
+                    "the merge loop runs over %d%s%d, not over all 256 registers: the registers left out are never merged " \
+                    "(merge is then neither commutative nor the union)" % (lo, "..=" if o[0] == "incl" else "..", hi)
+        else:
+            zc = [(zb, zi) for zb, zi in an.calls() if (zi["base"] or zi["callee"] or "").endswith("Iterator::zip")]
+            adapters = [zi for zb, zi in an.calls() if (zi["base"] or zi["callee"] or "").rsplit("::", 1)[-1] in
+                        ("skip", "take", "step_by", "rev", "skip_while", "take_while", "filter")]
+            if len(zc) == 1 and not adapters:
+                a0, a1 = zc[0][1]["args"]
+                if a0[0] == "call" and a0[1].endswith("::iter_mut") and a1[0] == "call" and a1[1].rsplit("::", 1)[-1] in ("iter", "into_iter"):
+                    verdict, why = PROVED, "the loop walks both register arrays whole, in lock step"
+        s.add("S-COVER", fn, "merge-visits-every-register", "add_assign", info["sp"], verdict, why, b)
 
 
 def max_update(ctx, s, fn):
